@@ -236,7 +236,23 @@ int main(int argc, char** argv)
         vrf::count("snapshots", nsnaps);
         vrf::count("snapshots_kept_across_later_actions", kept_across.load());
         vrf::count("snapshot_write_pairs_overlapping_in_time", overl);
-        if (r % 4000 == 0) vrf::sample(pj);
+        if (r % 4000 == 0) {
+            std::string obs = "{\"final_log\":" + vrf::jnums(fin) + ",\"snapshots\":[";
+            bool first = true;
+            for (auto& v : snaps)
+                for (auto& sn : v) {
+                    obs += std::string(first ? "" : ",") + "{\"call\":" + std::to_string(sn.call) + ",\"ret\":" + std::to_string(sn.ret) + ",\"log\":" + vrf::jnums(sn.seen) + "}";
+                    first = false;
+                }
+            obs += "],\"writes\":[";
+            first = true;
+            for (auto* w : allw) {
+                obs += std::string(first ? "" : ",") + "{\"id\":" + std::to_string(w->id) + ",\"committed\":" + (w->committed ? "1" : "0") + ",\"started_from\":" + vrf::jnums(w->initial) + "}";
+                first = false;
+            }
+            obs += "]}";
+            vrf::sample("{\"program\":" + pj + ",\"observed\":" + obs + "}");
+        }
     }
     vrf::finish();
 }
